@@ -25,19 +25,23 @@ MAXDUR == 16777215
 MAXCANVAS == 16777216
 
 (* frame option kinds: [dur, x, y, noblend, dispose]; kind 0 = nil options *)
-OptKinds == IF FULL THEN 0..5 ELSE {0, 1, 2}
+OptKinds == IF FULL THEN 0..7 ELSE {0, 1, 2}
 Opt(k) == CASE k = 0 -> [dur |-> 0, x |-> 0, y |-> 0, noblend |-> 0, dispose |-> 0]
             [] k = 1 -> [dur |-> 1, x |-> 0, y |-> 0, noblend |-> 0, dispose |-> 0]
-            [] k = 2 -> [dur |-> 100, x |-> 2, y |-> 2, noblend |-> 1, dispose |-> 1]
+            [] k = 2 -> [dur |-> 70001, x |-> 2, y |-> 2, noblend |-> 1, dispose |-> 1]   \* duration uses all 3 bytes
             [] k = 3 -> [dur |-> 16777221, x |-> 3, y |-> 1, noblend |-> 0, dispose |-> 1]
             [] k = 4 -> [dur |-> -5, x |-> 0, y |-> 0, noblend |-> 1, dispose |-> 0]
             [] k = 5 -> [dur |-> 0, x |-> 0, y |-> 0, noblend |-> 1, dispose |-> 1]
+            [] k = 6 -> [dur |-> 258, x |-> 131588, y |-> 2, noblend |-> 0, dispose |-> 0]  \* offset fields use all 3 bytes
+            [] k = 7 -> [dur |-> 3, x |-> 0, y |-> 197640, noblend |-> 1, dispose |-> 0]
 Clamp(d) == IF d < 0 THEN 0 ELSE IF d > MAXDUR THEN MAXDUR ELSE d
 
 Blobs == 0..3            \* 0 nil, 1 empty non-nil, 2 one byte, 3 two bytes
-Canvases == IF FULL THEN {<<0, 0>>, <<8, 8>>, <<4, 4>>, <<3, 3>>, <<16777217, 5>>, <<6, 0>>}
-            ELSE {<<8, 8>>, <<3, 3>>}
-Loops == IF FULL THEN {-1, 0, 3, 65535, 65536} ELSE {3, 65536}
+\* canvases whose 24-bit fields use their top byte are included in both alphabets; areas stay below the
+\* documented 2^30-pixel cap of the decoding side (larger canvases are legal containers the package refuses to read)
+Canvases == IF FULL THEN {<<0, 0>>, <<8, 8>>, <<4, 4>>, <<3, 3>>, <<16777217, 5>>, <<6, 0>>, <<8, 70001>>, <<197637, 515>>}
+            ELSE {<<8, 8>>, <<3, 3>>, <<8, 70001>>, <<66000, 258>>}
+Loops == IF FULL THEN {-1, 0, 3, 258, 65535, 65536} ELSE {258, 65536}
 ClampLoop(n) == IF n < 0 THEN 0 ELSE IF n > 65535 THEN 65535 ELSE n
 Bgs == {1, 2}            \* tokens for two ARGB colours (0x11223344, 0xFFFFFFFF)
 
@@ -96,8 +100,11 @@ FramesFit == \A i \in DOMAIN frames : /\ frames[i].x + PW(frames[i].tok) <= Canv
 StillOK == Animated \/ (Canvas = <<PW(frames[1].tok), PH(frames[1].tok)>> /\ frames[1].x = 0 /\ frames[1].y = 0)
 Representable == Len(frames) >= 1 /\ FramesFit /\ StillOK
 
+\* the decoding side documents a cap of 2^30 canvas pixels; beyond it the contract says nothing
+AreaOK == Canvas[2] = 0 \/ Canvas[1] <= 1073741823 \div Canvas[2]
 Expected ==
-  IF ~Representable THEN [err |-> TRUE,
+  IF Len(frames) >= 1 /\ ~AreaOK THEN [err |-> TRUE, reason |-> "skip: canvas beyond the documented 2^30-pixel cap"]
+  ELSE IF ~Representable THEN [err |-> TRUE,
                           reason |-> IF Len(frames) = 0 THEN "no frames"
                                      ELSE IF ~FramesFit THEN "frame outside the canvas"
                                      ELSE IF frames[1].x # 0 \/ frames[1].y # 0 THEN "still with a frame offset"
